@@ -764,7 +764,7 @@ def run(ctx):
         sq = replay_json(pym, prog)
         seqs.append(sq)
         labels.append(('replay', ctx.replay))
-    nseq = int(os.environ.get('C18_NSEQ', 900 if ctx.quick() else 12000))
+    nseq = int(os.environ.get('C18_NSEQ', 700 if ctx.quick() else 10000))
     for t in range(nseq):
         malformed = rng.random() < 0.15
         nops = rng.randint(8, 40)
